@@ -299,6 +299,37 @@ func (w *World) contentAccesses(fr FieldRef, load *ssa.UnOp, fn *ssa.Function, b
 	t := types.Unalias(load.Type()).Underlying()
 	_, isMap := t.(*types.Map)
 	_, isPtr := t.(*types.Pointer)
+	if _, isSlice := t.(*types.Slice); isSlice {
+		// element accesses through the loaded slice header: the backing array is shared with the field
+		var walk func(addr ssa.Value, depth int)
+		walk = func(addr ssa.Value, depth int) {
+			if depth > 4 || addr.Referrers() == nil {
+				return
+			}
+			for _, r := range *addr.Referrers() {
+				switch y := r.(type) {
+				case *ssa.UnOp:
+					if y.Op == token.MUL {
+						out = append(out, &FieldAccess{Field: fr, Kind: "elem-load", Instr: y, Fn: fn, Base: base, Constr: constr})
+					}
+				case *ssa.Store:
+					if y.Addr == addr {
+						out = append(out, &FieldAccess{Field: fr, Write: true, Kind: "elem-store", Instr: y, Fn: fn, Base: base, Constr: constr})
+					}
+				case *ssa.FieldAddr:
+					walk(y, depth+1)
+				case *ssa.IndexAddr:
+					walk(y, depth+1)
+				}
+			}
+		}
+		for _, r := range *load.Referrers() {
+			if ia, ok := r.(*ssa.IndexAddr); ok && ia.X == ssa.Value(load) {
+				walk(ia, 0)
+			}
+		}
+		return out
+	}
 	if !isMap && !isPtr {
 		return nil
 	}
